@@ -19,6 +19,8 @@ type CondEval struct {
 	Atom       Atomizer
 	Consistent func(S) bool    // prunes impossible valuations; may be nil
 	OnUnknown  func(e ast.Expr) // called for each non-atom leaf forked
+	// Fold evaluates a leaf from the state alone (tracked constants …).
+	Fold func(e ast.Expr, s S) (val, ok bool)
 }
 
 type sv struct {
@@ -75,6 +77,11 @@ func (ce *CondEval) eval(e ast.Expr, s S) []sv {
 				}
 			}
 			return out
+		}
+	}
+	if ce.Fold != nil {
+		if v, ok := ce.Fold(e, s); ok {
+			return []sv{{s, v}}
 		}
 	}
 	if ce.Atom != nil {
